@@ -148,6 +148,8 @@ def option_values(case):
 
 
 def garbage_tokens(case):
+    if case["kind"] == "big":
+        return list(range(case["gen"]["alphabet"] + 2))
     toks = sorted({x for c in case["ref"] + case["hyp"] for x in c} | ({case["eos"]} if case["eos"] is not None else set()))
     return toks or [0]
 
@@ -158,10 +160,15 @@ def make_tensor(cols, L, bf, dtype_name, layout, garbage):
     import torch
     dtype = getattr(torch, dtype_name)
     N = len(cols)
-    m = torch.tensor(cols, dtype=dtype).reshape(N, L)
+    if torch.is_tensor(cols):  # a generated (N, L) int64 batch (the large-problem stream)
+        m = cols.to(dtype).reshape(N, L)
+        same = N >= 1 and bool((m == m[:1]).all())
+    else:
+        m = torch.tensor(cols, dtype=dtype).reshape(N, L)
+        same = N >= 1 and all(c == cols[0] for c in cols)
     t = m if bf else m.t()
-    if layout == "expand" and N >= 1 and all(c == cols[0] for c in cols):
-        col = torch.tensor(cols[0], dtype=dtype).reshape(L)
+    if layout == "expand" and same:
+        col = m[0].clone().reshape(L)
         base = col
         view = col.unsqueeze(0).expand(N, L) if bf else col.unsqueeze(1).expand(L, N)
         return view, base
@@ -195,11 +202,12 @@ class _DefaultDtype:
         torch.set_default_dtype(self.old)
 
 
-def call_impl(case, ref_cols, hyp_cols, R, H, light=False):
-    """Run the real code on the given columns; return the result in column-major canonical
-    form: scalar -> [v_n], prefix -> [[v_{k,n} for k] for n] plus the raw shape. Unless `light`,
-    also: the library warnings raised, whether the inputs were written to, module attributes,
-    and (module entry) the result of a second call on the same object."""
+def call_impl(case, ref_cols, hyp_cols, R, H, light=False, tensor_out=False):
+    """Run the real code on the given columns (lists of columns, or (N, L) int64 tensors); return the
+    result in column-major canonical form: scalar -> [v_n], prefix -> [[v_{k,n} for k] for n] plus the
+    raw shape. Unless `light`, also: the library warnings raised, whether the inputs were written to,
+    module attributes, and (module entry) the result of a second call on the same object.
+    `tensor_out`: return (the tensor as returned by the library, the extra observations) instead."""
     import torch
     import pydrobert.torch.functional as F
     import pydrobert.torch.modules as M
@@ -210,7 +218,7 @@ def call_impl(case, ref_cols, hyp_cols, R, H, light=False):
     lay = case.get("layout") or ["contig", "contig"]
     garbage = garbage_tokens(case)
     ref, ref_base = make_tensor(ref_cols, R, bf, dts[0], lay[0], garbage)
-    if case.get("alias") and ref_cols == hyp_cols and R == H:
+    if case.get("alias") and R == H and not torch.is_tensor(ref_cols) and ref_cols == hyp_cols:
         hyp, hyp_base = ref, ref_base
     else:
         hyp, hyp_base = make_tensor(hyp_cols, H, bf, dts[1], lay[1], garbage)
@@ -259,6 +267,8 @@ def call_impl(case, ref_cols, hyp_cols, R, H, light=False):
                     kinds.add(kind)
         extra["warned"] = sorted(kinds)
         extra["inputs_untouched"] = bool(torch.equal(ref_base, keep[0]) and torch.equal(hyp_base, keep[1]))
+    if tensor_out:
+        return out, extra
     shape = list(out.shape)
     if mode == "scalar":
         vals = [frac_str(v) for v in out.tolist()]
@@ -272,6 +282,88 @@ def call_impl(case, ref_cols, hyp_cols, R, H, light=False):
         res["raw"] = [[frac_str(v) for v in row] for row in out.tolist()]  # the table as returned (native layout)
     res.update(extra)
     return res
+
+
+# ------------------------------------------------------------------ the large-problem stream
+# A "big" case does not store its batch: it stores the sizes and a generator seed, and the batch is
+# rebuilt from them (numpy PCG64, stable) whenever it is needed. Only a sample of the pairs goes to Lean.
+BIG_CAP = 12          # pairs of a large batch that are re-run alone and sent to the Lean oracle
+_BIG_CACHE = {}
+
+
+def coprime_up(n):
+    """The next n that is not a multiple of 2, 3, 5 or 7 (a batch size that no round chunk size divides)."""
+    while n % 2 == 0 or n % 3 == 0 or n % 5 == 0 or n % 7 == 0:
+        n += 1
+    return n
+
+
+def expand_big(case):
+    """The batch of a big case as two int64 tensors (N, R), (N, H). Body tokens 0..A-1; an eos that occurs
+    in the data is the value A, placed at a per-column length with random filler (further eos included)
+    after it. The hypothesis is a noisy, shifted window of the reference (so the cheapest script mixes
+    deletions on both sides with substitutions / insertions). The first 4 and the LAST 16 columns always
+    hold long sequences."""
+    import numpy as np
+    import torch
+    g = case["gen"]
+    N, R, H, eos = case["N"], case["R"], case["H"], case["eos"]
+    ck = (g["seed"], g["alphabet"], g["noise"], N, R, H, eos)
+    if ck in _BIG_CACHE:
+        return _BIG_CACHE[ck]
+    A = g["alphabet"]
+    rs = np.random.default_rng([g["seed"], N, R, H])
+    ref = rs.integers(0, A, (N, R), dtype=np.int64)
+    lo = max(R - H, 0) if R > H else min(R, 2)
+    shift = rs.integers(0, lo + 1, (N, 1), dtype=np.int64)
+    idx = np.arange(H, dtype=np.int64)[None, :] + shift
+    fresh = rs.integers(0, A, (N, H), dtype=np.int64)
+    if R > 0:
+        hyp = np.where(idx < R, np.take_along_axis(ref, np.minimum(idx, R - 1), 1), fresh)
+    else:
+        hyp = fresh
+    hyp = np.where(rs.random((N, H)) < g["noise"], rs.integers(0, A, (N, H), dtype=np.int64), hyp)
+    if eos is not None and eos == A:
+        for arr, L in ((ref, R), (hyp, H)):
+            ln = rs.integers(0, L + 1, N, dtype=np.int64)
+            u = rs.random(N)
+            ln = np.where(u < 0.15, L, np.where(u < 0.2, 0, ln))
+            edge = np.ones(N, dtype=bool)
+            edge[4:max(4, N - 16)] = False
+            ln = np.where(edge, rs.integers(max(1, (L + 1) // 2) if L else 0, L + 1, N, dtype=np.int64), ln)
+            pos = np.arange(L, dtype=np.int64)[None, :]
+            garb = rs.integers(0, A + 1, (N, L), dtype=np.int64)
+            arr[...] = np.where(pos > ln[:, None], garb, arr)
+            arr[pos == ln[:, None]] = eos
+    out = (torch.from_numpy(np.ascontiguousarray(ref)), torch.from_numpy(np.ascontiguousarray(hyp)))
+    _BIG_CACHE.clear()
+    _BIG_CACHE[ck] = out
+    return out
+
+
+def sample_indices(case):
+    """Which pairs of a big batch are looked at one by one: the LAST ones, the first ones, the middle, the
+    neighbours of the largest power of two below N, and a few drawn at random."""
+    import random
+    N = case["N"]
+    cap = case.get("n_sample", BIG_CAP)
+    if N <= cap:
+        return list(range(N))
+    p = 1 << ((N - 1).bit_length() - 1)
+    idx = [N - 1, 0, N - 2, N // 2, p, p - 1, N - 3, 1, p // 2, N // 2 - 1]
+    r = random.Random(case["gen"]["seed"] * 1000003 + N)
+    idx += [r.randrange(N) for _ in range(3 * cap)]
+    out = []
+    for i in idx:
+        if 0 <= i < N and i not in out:
+            out.append(i)
+    return sorted(out[:cap])
+
+
+def big_with_model(case):
+    """Is the per-column Lean model (cubic in R) run next to the oracle for the sampled pairs?"""
+    return (case["R"] + 1) ** 3 * max(case["H"], 1) * min(case["N"], case.get("n_sample", BIG_CAP)) <= 4_000_000
+
 
 
 def pick_filler(toks, lo, hi):
